@@ -340,8 +340,8 @@ def handleValid (j : Json) : Except String Json := do
     let cs := filesOfType files contentTypes
     pure (Json.mkObj ((cs.map fun r => (String.ofList r.path, jM (fun cr => toJson (validT cr.2)) (rootElement o a files r))) ++
       [("<package>", toJson (validPkg o a)), ("<comments>", toJson (commentsOK a)),
-       -- hypotheses of `C13_merge_total` on the SOURCE trees: every content part is `validT` and passes `goodTree`
-       ("<sources>", toJson (cs.all fun r => match a.readXml r.path with | .ok root => validT root && goodTree root | .error _ => true))]))
+       -- hypotheses of `C13_merge_total` on the SOURCE trees: every content part is `validT` and passes `goodTree` and `sameWb`
+       ("<sources>", toJson (cs.all fun r => match a.readXml r.path with | .ok root => validT root && goodTree root && sameWb root | .error _ => true))]))
 
 def handle (line : String) : Json :=
   match Json.parse line with
